@@ -554,6 +554,26 @@ def build_shell(d):
     return cc
 
 
+def shell_leftovers(rng, cc, d, prob=0.5):
+    """loads an earlier static / buckling run left on a shell object: no part of its linear stiffness, internal force or
+    tangent.  Returns the list of kinds left."""
+    left = []
+    if rng.random() >= prob:
+        return left
+    if rng.random() < 0.6:
+        cc.Fc = float(10 ** rng.uniform(0, 5)); left.append('Fc')
+    if rng.random() < 0.4 and 'fsdt' not in d['model']:
+        cc.P = float(rng.normal() * 10 ** rng.uniform(-3, 0)); left.append('P')
+    if rng.random() < 0.3:
+        cc.T = float(rng.normal() * 10 ** rng.uniform(0, 4)); left.append('T')
+    if rng.random() < 0.5:
+        for _ in range(int(rng.integers(1, 4))):
+            f = [float(x) for x in rng.normal(size=3) * 10 ** rng.uniform(0, 3)]
+            cc.add_force(float(rng.uniform(0, d['L'])), float(rng.uniform(0, 360)), f[0], f[1], f[2], increment=bool(rng.random() < 0.5))
+        left.append('forces')
+    return left
+
+
 def structure_matrices(rng, which, want):
     """(K, other, desc) of a generated PanelAssembly ('assembly') or StiffPanelBay ('bay'); want = 'kG0' | 'kM'.
     Restrained skins (ss / clamped flags) and compressive Nxx so that K is PD on its active set and the reference load
